@@ -4,10 +4,14 @@
 // Three builds of this file (see props/C14/check.py):
 //   real-mm   : no tasking define  -> alignedMalloc = _mm_malloc, ASan+UBSan
 //   real-tbb  : -DRKCOMMON_TASKING_TBB -ltbbmalloc -> scalable_aligned_malloc
-//   spy       : -DRKCOMMON_TASKING_TBB -DC14_SPY, scalable_aligned_malloc/free are
+//   spy       : -DRKCOMMON_TASKING_TBB -DC14_SPY, the whole scalable_* C API is
 //               defined HERE (the same bump allocator / scripted answers as the
 //               model's oracle), so the exact (bytes, align) handed to the back
 //               end, the pointers and the frees can be compared with the model.
+//               Entry points without an alignment argument (scalable_malloc,
+//               calloc, realloc) return what the real ones guarantee and no more:
+//               8-byte aligned (never 16) for requests up to 8 bytes, else 16
+//               (never 32); their request is printed with align 0.
 // In every build the harness also evaluates the property itself (alignment,
 // std::vector twin, full-extent patterns) and appends !FLAGS to the line.
 #include <cstdint>
@@ -61,12 +65,17 @@ static void spy_reset(long fail)
 }
 static uint64_t to_model(const void *p) { return p ? (uint64_t)((const unsigned char *)p - arena) + MODEL_BASE : 0; }
 
-extern "C" void *scalable_aligned_malloc(size_t size, size_t align)
+// one allocation of the bump back end: the least address >= cursor that is a multiple of
+// place_align but not of 2*place_align (so that a pointer is never "accidentally" better aligned
+// than what the entry point guarantees).  entry_align is what the caller asked for (0 = an entry
+// point without an alignment argument) and is what the G cases print as the request.
+static void *spy_alloc(size_t size, size_t place_align, size_t entry_align)
 {
-  spy_req_size = size; spy_req_align = align; ++spy_calls;
+  spy_req_size = size; spy_req_align = entry_align; ++spy_calls;
   if (spy_scripted) return spy_answer;
   long k = spy_fail; spy_fail = k - 1;
   if (k == 0) return nullptr;
+  size_t align = place_align;
   if (align == 0 || (align & (align - 1)) != 0 || align > (1ull << 20)) return nullptr;
   uint64_t lo = spy_cur, r = (lo - align) % (2 * align);
   uint64_t p = r == 0 ? lo : lo + (2 * align - r);
@@ -76,12 +85,62 @@ extern "C" void *scalable_aligned_malloc(size_t size, size_t align)
   spy_live[p] = size;
   return arena + (p - MODEL_BASE);
 }
-extern "C" void scalable_aligned_free(void *ptr)
+static void spy_release(void *ptr)
 {
   if (spy_scripted || !ptr) return;
   uint64_t p = to_model(ptr);
   if (!spy_live.erase(p)) spy_errors.push_back("!BADFREE(" + std::to_string(p) + ")");
 }
+// what plain scalable_malloc guarantees, as in the real tbbmalloc: blocks for requests of up to
+// 8 bytes are only 8-byte aligned, everything else 16 (= alignof(max_align_t))
+static size_t spy_plain_align(size_t size) { return size <= 8 ? 8 : 16; }
+static size_t spy_size_of(void *ptr)
+{
+  if (!ptr || spy_scripted) return 0;
+  auto it = spy_live.find(to_model(ptr));
+  return it == spy_live.end() ? 0 : (size_t)it->second;
+}
+
+// the whole C API of the TBB scalable allocator that code under test might call
+extern "C" void *scalable_aligned_malloc(size_t size, size_t align) { return spy_alloc(size, align, align); }
+extern "C" void scalable_aligned_free(void *ptr) { spy_release(ptr); }
+extern "C" void *scalable_malloc(size_t size) { return spy_alloc(size, spy_plain_align(size), 0); }
+extern "C" void scalable_free(void *ptr) { spy_release(ptr); }
+extern "C" void *scalable_calloc(size_t nobj, size_t size)
+{
+  if (size && nobj > (size_t)-1 / size) return nullptr;
+  void *p = spy_alloc(nobj * size, spy_plain_align(nobj * size), 0);
+  if (p && !spy_scripted) memset(p, 0, nobj * size);
+  return p;
+}
+extern "C" int scalable_posix_memalign(void **memptr, size_t align, size_t size)
+{
+  if (align < sizeof(void *) || (align & (align - 1)) != 0) return 22;   // EINVAL
+  void *p = spy_alloc(size, align, align);
+  if (!p) return 12;                                                      // ENOMEM
+  *memptr = p;
+  return 0;
+}
+static void *spy_move(void *ptr, void *np, size_t size)
+{
+  if (np && ptr && !spy_scripted) {
+    size_t old = spy_size_of(ptr);
+    memcpy(np, ptr, old < size ? old : size);
+    spy_release(ptr);
+  }
+  return np;
+}
+extern "C" void *scalable_realloc(void *ptr, size_t size)
+{
+  if (ptr && size == 0) { spy_release(ptr); return nullptr; }
+  return spy_move(ptr, spy_alloc(size, spy_plain_align(size), 0), size);
+}
+extern "C" void *scalable_aligned_realloc(void *ptr, size_t size, size_t align)
+{
+  if (ptr && size == 0) { spy_release(ptr); return nullptr; }
+  return spy_move(ptr, spy_alloc(size, align, align), size);
+}
+extern "C" size_t scalable_msize(void *ptr) { return spy_size_of(ptr); }
 static std::string addr(const void *p) { return std::to_string(to_model(p)); }
 #else
 static void spy_reset(long) {}
